@@ -11,6 +11,7 @@ names in Problems produced by the relaxation builders.
 """
 import json
 import os
+import random
 import subprocess
 import sys
 
@@ -140,6 +141,32 @@ def gen_history(rng, maxops):
                 pick = rng.sample(props, min(len(props), rng.randint(1, 3)))
                 ops.append({'k': 'solve', 'hs': [t[0] for t in pick], 'offs': [rng.randint(1, 9) for _ in pick],
                             'sizes': [t[3] for t in pick]})
+    props = [t for t in live if t[1]]
+    if props and rng.random() < 0.3:
+        # the round trip across an index generation, spelled out: dump a Variable, start a new generation (clear, or a fresh
+        # interpreter), load it back, create new Variables next to it (their indices start again at 0), probe
+        t = rng.choice(props)
+        slot = 's%d' % len(slots)
+        ops.append({'k': 'dump', 'hs': [t[0]], 'slot': slot})
+        if rng.random() < 0.6:
+            ops.append({'k': 'clear'})
+        else:
+            ops.append({'k': 'newsession'})
+            live = []
+        ops.append({'k': 'load', 'slot': slot, 'hs': [h]})
+        loaded = (h, True, t[2], t[3])
+        h += 1
+        fresh = []
+        for _ in range(rng.randint(1, 2)):
+            shape = rng.choice(SHAPES)
+            ops.append({'k': 'create', 'shape': shape, 'name': 'hv%d' % named, 'sym': False, 'h': h})
+            fresh.append((h, True, len(shape), int(np.prod(shape)) if shape else 1))
+            named += 1
+            h += 1
+        if rng.random() < 0.5:
+            # (a probe LP over ONE generation: the loaded Variable alone, or the new ones alone)
+            pick = [loaded] if rng.random() < 0.5 else fresh
+            ops.append({'k': 'solve', 'hs': [x[0] for x in pick], 'offs': [rng.randint(1, 9) for _ in pick], 'sizes': [x[3] for x in pick]})
     return ops
 
 
@@ -256,15 +283,15 @@ def builder_names(ctx, rng, count):
         g = [3 - y[0] - y[1], y[0] - 0.1, y[1] - 0.2]          # two constraints of the same shape (2 terms)
         p = x[0] ** (2 * a) + x[1] ** 2 - c * x[0] * x[1] + 1
         gp = [4 - x[0] ** 2 - x[1] ** 2, 1 - x[0] ** 2, 9 - x[1] ** 2]      # two constraints with n = 2, m = 2
-        form = rng.choice(['primal', 'dual'])
         ell = rng.randint(0, 1)
-        try:
-            probs.append(('sig_relaxation', so.sig_relaxation(f, form=form, ell=ell)))
-            probs.append(('sig_constrained_relaxation', so.sig_constrained_relaxation(f, g, [], form=form, p=rng.randint(0, 1), q=rng.randint(1, 2), ell=ell)))
-            probs.append(('poly_relaxation', so.poly_relaxation(p, form=form, poly_ell=ell)))
-            probs.append(('poly_constrained_relaxation', so.poly_constrained_relaxation(p, gp, [], form=form, p=rng.randint(0, 1), q=rng.randint(1, 2), ell=ell)))
-        except Exception as e:  # noqa: BLE001
-            ctx.incon('builder raised %s' % type(e).__name__)
+        for form in ('primal', 'dual'):
+            try:
+                probs.append(('sig_relaxation', so.sig_relaxation(f, form=form, ell=ell)))
+                probs.append(('sig_constrained_relaxation', so.sig_constrained_relaxation(f, g, [], form=form, p=rng.randint(0, 1), q=rng.randint(1, 2), ell=ell)))
+                probs.append(('poly_relaxation', so.poly_relaxation(p, form=form, poly_ell=ell)))
+                probs.append(('poly_constrained_relaxation', so.poly_constrained_relaxation(p, gp, [], form=form, p=rng.randint(0, 1), q=rng.randint(1, 2), ell=ell)))
+            except Exception as e:  # noqa: BLE001
+                ctx.incon('builder raised %s' % type(e).__name__)
     bad = []
     for name, pr in probs:
         names = [v.name for v in pr.all_variables]
@@ -359,13 +386,14 @@ def run(ctx):
     rng = ctx.rng
     ctx.lean = common.lean_check('C20')
     quick = ctx.quick()
+    common.run_regressions(ctx, 'C20', recheck)
     H = 200 if quick else 2000
     maxops = 10 if quick else 30
     tpl = Template()
     hists, reals = [], []
     try:
         for e in common.load_corpus('C20'):
-            if 'ops' in e:
+            if 'ops' in e and 'regress' not in e:
                 hists.append(e['ops'])
         for _ in range(H):
             hists.append(gen_history(rng, maxops))
@@ -407,8 +435,9 @@ def run(ctx):
         if why:
             ctx.violation('identity: ' + why, {'ops': ops, 'observed': ro})
     ctx.extra['fresh_interpreter_sessions'] = nsess
-    for what, rep in builder_names(ctx, rng, 3 if quick else 20):
-        ctx.violation('names: ' + what, rep)
+    bseed, bcount = rng.randrange(1 << 30), 3 if quick else 20
+    for what, rep in builder_names(ctx, random.Random(bseed), bcount):
+        ctx.violation('names: ' + what, dict(rep, bseed=bseed, bcount=bcount))
     for what, rep in symmetric_stream(ctx, rng, 6 if quick else 60):
         ctx.violation('symmetric: ' + what, rep)
     if (not ctx.lean.ok or ctx.disagreements) and not ctx.violations:
@@ -422,9 +451,8 @@ def run(ctx):
         trusted=TRUSTED, assumptions=ASSUME)
 
 
-def replay(obj):
-    r = obj['replay']
-    print('what:', obj['what'])
+def recheck(r):
+    """execute the stored input of a violation again; the violation it (still) shows, or None"""
     if 'ops' in r:
         tpl = Template(width=2)
         try:
@@ -432,7 +460,19 @@ def replay(obj):
         finally:
             tpl.close()
         why = oracle(r['ops'], ro)
-        print('re-executed history:', [o['k'] for o in r['ops']])
-        print('oracle:', why or 'ok')
-        return 1 if why else 0
+        return ('identity: ' + why) if why else None
+    if 'bseed' in r:
+        out = builder_names(common.RecCtx(), random.Random(r['bseed']), r.get('bcount', 3))
+        return ('names: ' + out[0][0]) if out else None
+    if 'symmetric_seed' in r:
+        kind, res = common.forked(_symmetric_values, r['symmetric_seed'], timeout=120)
+        if kind == 'exception':
+            return 'symmetric: building / solving a model with a symmetric Variable raised: %s' % res
+        return ('symmetric: ' + res) if kind == 'ok' and res else None
+    return None
+
+
+def replay(obj):
+    print('what:', obj['what'])
+    print(common.canon_json(obj['replay'])[:1500])
     return 1
